@@ -162,6 +162,9 @@ func main() {
 			fmt.Print(out)
 			die(2, "HARNESS-ERROR replay worker failed (exit %d)", code)
 		}
+		if os.Getenv("VERIF_TRACE") != "" {
+			fmt.Print(out)
+		}
 		for _, v := range res.Violations {
 			fmt.Printf("replayed: %s/%s: %s\n", v.Prop, v.Class, v.Msg)
 		}
